@@ -3,7 +3,12 @@
 Crash-point enumeration: disconnects, disconnect+re-register, graceful aggregator restarts (and hard crashes,
 counted only) inserted at every position of base histories, executed on the real aggregator with a scratch SQLite
 file; after every reconnect / tag batch / run-stopped the run continuity, the plot-log rows and the RecentRuns row
-count are compared with the engine-side truth kept by the harness (see DESIGN.md C28)."""
+count are compared with the engine-side truth kept by the harness (see DESIGN.md C28).
+
+Redelivery stratum: what an engine buffered while disconnected (plus the unacknowledged last message) is delivered in
+permuted order after the re-registration, with and without an aggregator restart in between; after every message the
+active run, the RecentRuns / PlotLogs rows and the attribution of tag rows are compared with the statement read over the
+delivered stream (run_flush_history)."""
 from __future__ import annotations
 
 import asyncio
@@ -23,7 +28,14 @@ RULE = ("base histories over {register, connect, uod-info, run-started, tag batc
         "without shutdown (counted, never judged)} inserted at every position after the websocket connect: every "
         "single fault and every pair (thorough: every triple on BA/BB); the seed only varies the data-log interval and "
         "the tag-time spacing. distinct = the history; non-trivial = at least one judged fault hits while a run is "
-        "active and at least one continuity check was made")
+        "active and at least one continuity check was made. Redelivery stratum (buffer flush after a reconnect): engine "
+        "time lines F2 (run R1 with one tag batch, run R2 with two) and F3 (R1, R2, R3); every disconnect point d and "
+        "reconnect point c > d of the time line; fault {X disconnect, XG disconnect then graceful restart; thorough also "
+        "G restart while connected}; after the re-registration the messages the engine produced while disconnected "
+        "(time line[d:c]), optionally preceded by a duplicate of the last message delivered before the disconnect (its "
+        "reply was lost), are delivered in permuted order (all permutations of buffers with at most 24 [thorough 720 / "
+        "F3 48; quick F3 6] permutations, else in-order + reversed + seeded random ones), then the rest of the time "
+        "line live and in order; every history of this stratum is non-trivial")
 ASSUMPTIONS = [
     "engine-side truth (which run the engine is in) is kept by the harness: a run starts when its run-started is "
     "delivered and ends when its first run-stopped is delivered; all messages are delivered while connected",
@@ -37,11 +49,30 @@ ASSUMPTIONS = [
     "and not judged",
     "graceful restart calls shutdown() while engines are still connected; the order 'connections close first' is the "
     "fault pair (X, G)",
+    "redelivery stratum: the reference is the statement read over the *delivered* stream of the engine: the active run "
+    "is the run whose run-started was delivered last and that has not ended; a run has ended once its run-stopped was "
+    "delivered while it was active or once another run's run-started was delivered while it was active (an engine is in "
+    "one run at a time); run-started / run-stopped of an ended run are late duplicates and change nothing; disconnect, "
+    "re-registration and graceful restart change nothing. Judged after every message: the aggregator's active run "
+    "equals the reference's; the active run has no RecentRuns row (stored when it stops, not before); no run has more "
+    "than one; a run whose run-stopped was delivered while active has exactly one; every opened run has exactly one "
+    "plot log; a tag batch of the active run is recorded in that run's plot log only, and is present with its tick "
+    "time if it is newer than every batch delivered before. The first divergence ends the judgement of a history",
+    "redelivery stratum, counted and not judged: where a buffered tag batch lands that was displaced out of its own run "
+    "(delivered before its run-started / after its run-stopped / while another run is active); presence of a batch "
+    "older than one already delivered (throttle); everything after a run-stopped that overtook its own run-started",
 ]
 REQUIRED = {"histories": 2000, "continuity_checks": 1500, "post_fault_batches_checked": 1500,
             "stored_once_checks": 4000, "graceful_restarts": 600, "disconnects": 2000,
-            "faults_during_active_run": 1500, "hard_crash_histories_not_judged": 500}
-EXHAUSTIVE_ALL = True
+            "faults_during_active_run": 1500, "hard_crash_histories_not_judged": 500,
+            # redelivery stratum
+            "flush_histories": 1500, "flush_histories_out_of_order": 1200, "flush_histories_with_aggregator_restart": 700,
+            "flush_duplicates_delivered": 800, "flush_active_run_checks": 10000, "flush_stored_checks": 10000,
+            "flush_continuity_checks": 1000, "flush_late_run_started_while_other_run_active_judged": 40,
+            "flush_late_run_stopped_while_other_run_active_judged": 300, "flush_run_superseded_by_run_started": 300,
+            "flush_live_batches_checked": 1500, "flush_end_checks": 1500}
+EXHAUSTIVE_ALL = False     # the fault placements are enumerated completely; the redelivery stratum samples the
+                           # permutations of large buffers (exhaustive_parts says what is complete)
 
 
 def _eng(e, items, k0=0):
@@ -121,6 +152,16 @@ def plan(tier, seed):
         for part in range(parts):
             specs.append({"base": name, "nfaults": nf, "part": part, "of": parts, "min_pos": min_pos,
                           "seed": seed * 1000003 + i})
+            i += 1
+    # redelivery stratum: the permutation sample (fseed) is the same for all parts of one base
+    if tier == "quick":
+        flayout = (("F2", 24, ["X", "XG"], 8), ("F3", 6, ["X", "XG"], 8))
+    else:
+        flayout = (("F2", 720, ["X", "XG", "G"], 32), ("F3", 48, ["X", "XG", "G"], 24))
+    for name, max_perms, faults, parts in flayout:
+        for part in range(parts):
+            specs.append({"mode": "flush", "base": name, "max_perms": max_perms, "faults": faults, "part": part,
+                          "of": parts, "seed": seed * 1000003 + i, "fseed": seed * 1000003 + 500 + len(name)})
             i += 1
     return specs
 
@@ -305,6 +346,285 @@ async def run_history(hist, base_name, params, res: Result, rig):
         res.violation(mech, msg, {"base": base_name, "history": hist, "params": params})
 
 
+# ------------------------------------------------------------------ redelivery stratum (buffer flush after a reconnect)
+# An engine that loses its connection keeps working: what it produces while disconnected is buffered (EngineRunner.
+# _buffer_message), a message whose reply was lost stays in the buffer although the aggregator handled it, and after
+# the reconnect the buffer is posted with asyncio.gather (EngineRunner._send_buffered_batch), i.e. in no particular
+# order. The stratum takes an engine time line, a disconnect point d, a reconnect point c, optionally an aggregator
+# restart in between, and delivers time line[d:c] (+ a duplicate of the last message delivered before the
+# disconnect) in permuted order after the re-registration; the rest of the time line follows live, in order.
+def flush_timeline(name):
+    if name == "F2":
+        return [["start", "R1"], ["t", "R1"], ["stop", "R1"], ["start", "R2"], ["t", "R2"], ["t", "R2"], ["stop", "R2"]]
+    if name == "F3":
+        return [["start", "R1"], ["t", "R1"], ["stop", "R1"], ["start", "R2"], ["t", "R2"], ["stop", "R2"],
+                ["start", "R3"], ["t", "R3"], ["t", "R3"], ["stop", "R3"]]
+    raise ValueError(name)
+
+
+FLUSH_FAULTS = {"X": [["X", "E1"]], "XG": [["X", "E1"], ["G"]], "G": [["G"]]}
+
+
+def _flush_msgs(name):
+    """time line -> messages [kind, engine, run, time-line index (1-based; fixes tick time and values), origin]"""
+    out = []
+    for j, it in enumerate(flush_timeline(name)):
+        out.append([{"t": "tags"}.get(it[0], it[0]), "E1", it[1], j + 1])
+    return out
+
+
+def enumerate_flush_histories(name, max_perms, fault_names, fseed):
+    """every (d, c, duplicate?, fault) x permutations of the buffer: all of them if there are at most max_perms,
+    else the in-order flush, the reversed flush and seeded distinct random permutations up to max_perms"""
+    import math
+    import random
+    tl = _flush_msgs(name)
+    n = len(tl)
+    rnd = random.Random(fseed)
+    out = []
+    for d in range(1, n):
+        for c in range(d + 1, n + 1):
+            for dup in (0, 1):
+                buf = ([tl[d - 1] + ["dup"]] if dup else []) + [m + ["buf"] for m in tl[d:c]]
+                if math.factorial(len(buf)) <= max_perms:
+                    perms = list(itertools.permutations(range(len(buf))))
+                else:
+                    ident = tuple(range(len(buf)))
+                    perms = [ident, ident[::-1]]
+                    seen = set(perms)
+                    while len(perms) < max_perms:
+                        q = list(ident)
+                        rnd.shuffle(q)
+                        if tuple(q) not in seen:
+                            seen.add(tuple(q))
+                            perms.append(tuple(q))
+                for fn in fault_names:
+                    for perm in perms:
+                        h = [["reg", "E1"], ["conn", "E1"], ["uod", "E1"]]
+                        h += [m + ["live"] for m in tl[:d]]
+                        h += [list(f) for f in FLUSH_FAULTS[fn]]
+                        h.append(["rec", "E1"])
+                        h += [list(buf[q]) for q in perm]
+                        h += [m + ["live"] for m in tl[c:]]
+                        out.append(h)
+    return out
+
+
+async def run_flush_history(hist, base_name, params, res: Result, rig):
+    """Reference reading of the statement over the *delivered* stream of one engine (the aggregator cannot know more):
+    active = the run whose run-started was delivered last and that has not ended; a run has ended once its run-stopped
+    was delivered while it was active, or once the run-started of another run was delivered while it was active (an
+    engine is in one run at a time); a run-started / run-stopped of an ended run is a late duplicate and changes
+    nothing; disconnect, re-registration and aggregator restart change nothing."""
+    from opv.rigs.aggregator_rig import reg_msg, uod_info_msg, tags_msg, run_started_msg, run_stopped_msg
+
+    interval, spacing = params["interval"], params["spacing"]
+    rig.wipe()
+    e = "E1"
+    eid = None
+    connected = False
+    active = None                 # model
+    ended: set[str] = set()       # model: ended runs
+    ended_by_stop: set[str] = set()
+    opened: list[str] = []
+    judged = True
+    viol: list[tuple] = []
+    last_id = 0
+    max_tick = None
+    restarted = False
+    bufseq = [(0 if m[-1] == "dup" else 1, m[3]) for m in hist if m[-1] in ("buf", "dup")]
+    out_of_order = bufseq != sorted(bufseq)       # engine order: the unacknowledged message first, then as produced
+    with_dup = any(x[0] == 0 for x in bufseq)
+
+    def agg_active():
+        ed = rig.engine_data(eid) if eid is not None else None
+        if ed is None:
+            return "?"
+        return ed.run_data.run_id if ed.has_run() else None
+
+    def flag(mech, msg):
+        nonlocal judged
+        viol.append((mech, msg))
+        judged = False            # one cause per history: what follows is a consequence of the first divergence
+
+    def check_state(i, m, cause):
+        """after message #i: active run, stored-when-stopped, one plot log"""
+        got = agg_active()
+        if got != "?":
+            res.count("flush_active_run_checks")
+            if got != active:
+                sym = ("C28.active_run_closed_although_not_stopped" if got is None else
+                       "C28.ended_run_reopened" if got in ended else "C28.active_run_differs")
+                return flag(cause or sym, f"after message #{i} {m}: the engine's run by the delivered notifications is "
+                                          f"{active} (ended runs: {sorted(ended)}), the aggregator has {got}")
+        pl, rr = rig.run_row_counts()
+        res.count("flush_stored_checks")
+        for r in opened:
+            n = rr.get(r, 0)
+            if r == active and n > 0:
+                return flag(cause or "C28.run_stored_before_it_stopped",
+                            f"after message #{i} {m}: run {r} is still running and already has {n} RecentRuns row(s)")
+            if n > 1:
+                return flag(cause or "C28.run_stored_more_than_once",
+                            f"after message #{i} {m}: {n} RecentRuns rows for run {r}")
+            if r in ended_by_stop and n == 0:
+                return flag(cause or "C28.run_not_stored_when_stopped",
+                            f"after message #{i} {m}: no RecentRuns row for run {r} whose run-stopped was delivered "
+                            f"while it was the active run")
+            if pl.get(r, 0) != 1:
+                return flag(cause or "C28.run_has_not_exactly_one_plot_log",
+                            f"after message #{i} {m}: {pl.get(r, 0)} PlotLogs rows for run {r}")
+
+    for i, m in enumerate(hist):
+        kind = m[0]
+        if kind == "reg":
+            eid = await rig.register(reg_msg(e, "uod"))
+            continue
+        if kind == "conn":
+            await rig.connect(eid)
+            connected = True
+            continue
+        if kind == "uod":
+            await rig.send(uod_info_msg(eid, ["T1", "T2"], interval))
+            continue
+        if kind == "X":
+            res.count("flush_disconnects")
+            await rig.disconnect(eid)
+            connected = False
+            if active is not None:
+                res.count("flush_faults_during_active_run")
+            continue
+        if kind == "G":
+            res.count("flush_graceful_restarts")
+            restarted = True
+            if connected and active is not None:
+                res.count("flush_faults_during_active_run")
+            connected = False
+            await rig.restart(graceful=True)
+            continue
+        if kind == "rec":
+            eid2 = await rig.register(reg_msg(e, "uod"))
+            if eid2 is None:
+                flag("C28.re_registration_refused", f"engine {e} could not re-register (message #{i})")
+                break
+            eid = eid2
+            await rig.connect(eid)
+            await rig.send(uod_info_msg(eid, ["T1", "T2"], interval))
+            connected = True
+            if judged:
+                if active is not None:
+                    res.count("flush_continuity_checks")
+                check_state(i, m, None if active is None or agg_active() == active else
+                            "C28.active_run_not_continued_after_reconnect")
+            continue
+        r, j, origin = m[2], m[3], m[4]
+        t = 1000.0 + j * spacing
+        if origin != "live":
+            res.count("flush_redelivered_messages")
+            if origin == "dup":
+                res.count("flush_duplicates_delivered")
+        if kind == "start":
+            cause = None
+            if r in ended:
+                # late duplicate of the run-started of an ended run: nothing may change
+                cause = "C28.run_started_of_ended_run_changes_active_run"
+                if judged:
+                    res.count("flush_late_run_started_of_ended_run_judged")
+                    if active is not None:
+                        res.count("flush_late_run_started_while_other_run_active_judged")
+            elif active == r:
+                if judged:
+                    res.count("flush_duplicate_run_started_of_active_run_judged")
+            else:
+                if active is not None:
+                    ended.add(active)
+                    if judged:
+                        res.count("flush_run_superseded_by_run_started")
+                active = r
+                opened.append(r)
+            await rig.send(run_started_msg(eid, r, t))
+            if judged:
+                check_state(i, m, cause)
+        elif kind == "stop":
+            cause = None
+            if active == r:
+                active = None
+                ended.add(r)
+                ended_by_stop.add(r)
+            elif r in ended:
+                cause = "C28.run_stopped_of_ended_run_closes_active_run" if active is not None else None
+                if judged:
+                    res.count("flush_late_run_stopped_of_ended_run_judged")
+                    if active is not None:
+                        res.count("flush_late_run_stopped_while_other_run_active_judged")
+            else:
+                # the run-stopped overtook its own run-started: the statement does not say what the aggregator owes
+                if judged:
+                    res.count("flush_run_stopped_overtook_run_started_rest_not_judged")
+                judged = False
+            await rig.send(run_stopped_msg(eid, r))
+            if judged:
+                check_state(i, m, cause)
+        elif kind == "tags":
+            v1, v2 = float(1000 * j) + 0.5, 1000 * j
+            await rig.send(tags_msg(eid, r, [("T1", t, v1), ("T2", t, v2)]))
+            rows = rig.plot_values(after_id=last_id)
+            if rows:
+                last_id = rows[-1]["id"]
+            fresh = max_tick is None or t > max_tick
+            max_tick = t if max_tick is None else max(max_tick, t)
+            if judged:
+                mine = [x for x in rows if (x["name"], x["value"]) in (("T1", v1), ("T2", v2))]
+                if active != r:
+                    # a buffered batch displaced out of its own run (before its run-started / after its run-stopped)
+                    res.count("flush_displaced_batches_not_judged")
+                    if mine:
+                        res.count("flush_displaced_batch_recorded_in_active_run_not_judged")
+                else:
+                    res.count("flush_batches_checked")
+                    if origin == "live":
+                        res.count("flush_live_batches_checked")
+                    good = [x for x in mine if x["run_id"] == r and x["engine_id"] == eid and x["tick_time"] == t]
+                    if any(x["run_id"] != r or x["engine_id"] != eid for x in mine):
+                        flag("C28.tag_data_recorded_in_other_plot_log",
+                             f"batch #{i} {m} of the active run {r} recorded as {mine}")
+                    elif fresh and len(good) < 2:
+                        flag("C28.tag_data_after_reconnect_not_recorded_in_run",
+                             f"batch #{i} {m} (T1={v1}, T2={v2}, t={t}; newer than everything delivered before) of the "
+                             f"active run {r}: rows found {mine}; aggregator's active run: {agg_active()}")
+                    elif not fresh:
+                        res.count("flush_stale_batch_presence_not_judged")
+                if judged:
+                    check_state(i, m, None)
+        if rig.handler_errors:
+            res.count("handler_raised_not_judged")
+            rig.handler_errors.clear()
+    # ---- end of the history: every run that was opened and has ended is stored exactly once, one plot log each
+    if judged:
+        pl, rr = rig.run_row_counts()
+        for r in opened:
+            if r in ended:
+                res.count("flush_end_checks")
+                if rr.get(r, 0) != 1:
+                    flag("C28.run_not_stored_when_stopped" if rr.get(r, 0) == 0 else "C28.run_stored_more_than_once",
+                         f"{rr.get(r, 0)} RecentRuns rows for run {r} at the end of the history")
+                    break
+                if pl.get(r, 0) != 1:
+                    flag("C28.run_has_not_exactly_one_plot_log", f"{pl.get(r, 0)} PlotLogs rows for run {r} at the end")
+                    break
+    res.count("flush_histories")
+    if out_of_order:
+        res.count("flush_histories_out_of_order")
+    if with_dup:
+        res.count("flush_histories_with_duplicate")
+    if restarted:
+        res.count("flush_histories_with_aggregator_restart")
+    res.case({"h": hist, "p": params},
+             sample={"base": base_name, "history": hist, "params": params, "rows": rig.counts()})
+    for mech, msg in viol:
+        res.violation(mech, msg, {"base": base_name, "history": hist, "params": params})
+
+
 async def _shard(spec, res):
     import random
     from opv.rigs.aggregator_rig import AggregatorRig
@@ -312,6 +632,16 @@ async def _shard(spec, res):
     params = {"interval": rnd.choice([0.5, 0.2, 1.0]), "spacing": rnd.choice([1.5, 2.0, 3.0])}
     rig = AggregatorRig()
     try:
+        if spec.get("mode") == "flush":
+            hs = enumerate_flush_histories(spec["base"], spec["max_perms"], spec["faults"], spec["fseed"])
+            for h in hs[spec["part"]::spec["of"]]:
+                await run_flush_history(h, spec["base"], params, res, rig)
+            if spec["part"] == 0:
+                res.exhaustive_parts.append(
+                    f"{spec['base']} redelivery: every disconnect point d, reconnect point c > d, duplicate yes/no, fault "
+                    f"in {spec['faults']}; all permutations of every buffer with at most {spec['max_perms']} "
+                    f"permutations, {spec['max_perms']} permutations (in order, reversed, seeded random) of larger buffers")
+            return
         hs = enumerate_histories(spec["base"], spec["nfaults"], spec.get("min_pos", 0))
         for h in hs[spec["part"]::spec["of"]]:
             await run_history(h, spec["base"], params, res, rig)
@@ -337,7 +667,10 @@ def replay(case):
     async def go():
         rig = AggregatorRig()
         try:
-            await run_history(case["history"], case["base"], case["params"], res, rig)
+            if case["base"].startswith("F"):
+                await run_flush_history(case["history"], case["base"], case["params"], res, rig)
+            else:
+                await run_history(case["history"], case["base"], case["params"], res, rig)
         finally:
             rig.close()
     asyncio.run(go())
